@@ -95,12 +95,20 @@ theorem median_hangs_T1 (ws : List Int) (minPw maxPw : Int) (hlen : 2 ≤ ws.len
   medianLoop_stuck ws minPw maxPw 0 ws.length 0 (by omega) (Nat.le_refl _) (by simp [pre]) hpos
 
 /-- Regression witness of D4: four unit weights, total 4 (thresholds
-`(2·0.99) as i64 = 1`, `(2·1.01) as i64 = 2`), one thread – the first cut of the
-4×4 unit grid.  For every fuel the loop runs out of fuel: its state `(0, 4, 0)`
-is a fixed point. -/
+`(2·0.99) as i64 = 1`, `(2·1.01) as i64 = 2`), one thread.  For every fuel the
+loop runs out of fuel: its state `(min, max, left) = (0, 4, 0)` is a fixed point. -/
 theorem median_hangs_T1_before_fix :
     ∀ fuel, medianLoop { minChunks := 1 } 1 [1, 1, 1, 1] 1 2 fuel 0 4 0 = .error .outOfFuel :=
   median_hangs_T1 [1, 1, 1, 1] 1 2 (by decide) (by decide)
+
+/-- The first bisection of the corpus witness (4×4 grid of unit weights: slab
+sums `4 4 4 4`, total 16, thresholds 7 and 8) – same fixed point – and the whole
+`Grid::rcb` call of the witness on the old model (`iter_count = 2`, one thread). -/
+theorem rcb_hangs_T1_before_fix :
+    (∀ fuel, medianLoop { minChunks := 1 } 1 [4, 4, 4, 4] 7 8 fuel 0 4 0 = .error .outOfFuel) ∧
+    rcb2 { minChunks := 1 } 1 (fun t => some (99 * t / 200, 101 * t / 200)) 4 4
+      #[1,1,1,1,1,1,1,1,1,1,1,1,1,1,1,1] 16 2 = .error .outOfFuel :=
+  ⟨median_hangs_T1 [4, 4, 4, 4] 7 8 (by decide) (by decide), by decide +kernel⟩
 
 /-- … whereas the repaired code returns the exact half on the same input. -/
 theorem median_T1_after_fix : weightedMedian {} 1 [1, 1, 1, 1] 1 2 = .ok (2, 2) := by decide
@@ -316,6 +324,7 @@ end Coupe.GridRcb
 #print axioms Coupe.GridRcb.median_half_mark
 #print axioms Coupe.GridRcb.median_hangs_T1
 #print axioms Coupe.GridRcb.median_hangs_T1_before_fix
+#print axioms Coupe.GridRcb.rcb_hangs_T1_before_fix
 #print axioms Coupe.GridRcb.median_T1_after_fix
 #print axioms Coupe.GridRcb.index_position_2d
 #print axioms Coupe.GridRcb.position_index_2d
